@@ -414,6 +414,7 @@ class MetaAppClock(MetaClock):
             if _libsc3.main is _libsc3.RtMain:
                 cls._sched_lock = _libsc3.main._main_lock
                 cls._tick_cond = threading.Condition()
+                cls._tick_pending = False  # sched() after the last tick.
                 cls._scheduler = Scheduler(cls, drift=True, recursive=False)
                 cls._thread = threading.Thread(
                     target=cls._run,
@@ -463,7 +464,11 @@ class AppClock(Clock, metaclass=MetaAppClock):
             with cls._tick_cond:  # many notify one wait
                 if not cls._run_sched:
                     return
-                cls._tick_cond.wait(seconds)  # if seconds is None waits for notify
+                # A task may have been scheduled between the tick above and
+                # this point, its notify would be lost, tick again instead.
+                if not cls._tick_pending:
+                    cls._tick_cond.wait(seconds)  # if seconds is None waits for notify
+                cls._tick_pending = False
 
     @classmethod
     def clear(cls):
@@ -495,6 +500,7 @@ class AppClock(Clock, metaclass=MetaAppClock):
             with cls._sched_lock:
                 cls._scheduler.sched(delta, item)
             with cls._tick_cond:
+                cls._tick_pending = True
                 cls._tick_cond.notify()
 
     @classmethod
